@@ -20,10 +20,12 @@ func runC19(r *Run) {
 	r.rule("C19.R3", "revert containment in ApplyTransaction", 6)
 	r.rule("C19.R4", "refund of unused gas: always, at the effective price, fee collector -> sender", 6)
 	r.rule("C19.R5", "gas used = max(minimum, raw - refund), fixed afterwards", 5)
-	r.rule("C19.R6", "fee deduction in the ante handler and block gas limit", 7)
+	r.rule("C19.R6", "fee deduction in the ante handler, block gas limit, and the balance-versus-cost check in every execution mode", 8)
 	r.rule("C19.R7", "tx-hash context value precedes EVM construction", 1)
 	r.rule("C19.R8", "the state-DB commit writes every touched account's balance to the bank: SetAccount calls SetBalance with the account's balance unconditionally and returns its error; SetBalance mints a positive and burns a negative difference", 3)
 	c19Balances(r)
+	r.rule("C19.R9", "an Ethereum message is executed only behind the Ethereum ante chain: both Cosmos chains reject a MsgEthereumTx among the tx messages and, through the authz limiter, inside a MsgExec at any depth", 9)
+	c19Authz(r)
 
 	// ---------------------------------------------------------------- R1
 	if v := w.View("app/ante", "newEVMAnteHandler"); v == nil {
@@ -479,6 +481,32 @@ func runC19(r *Run) {
 		})
 		r.check(okMin, "C19.R6", "mingasprice|every-mode", v.pos(v.Decl), "a tx priced below the global minimum gas price is rejected in every execution mode (block inclusion too)", "EthMinGasPriceDecorator does not reject fee < minGasPrice x gasLimit unconditionally (apart from a zero minimum): a proposer can include under-priced transactions")
 	}
+	if v := w.View("app/ante/evm", "EthAccountVerificationDecorator.AnteHandle"); v == nil {
+		r.bad("C19.R6", "anchor|accountverification", "-", "anchor", "not found")
+	} else {
+		r.saw(v.ID())
+		var loop *ast.RangeStmt
+		ast.Inspect(v.Decl.Body, func(n ast.Node) bool {
+			if rs, ok := n.(*ast.RangeStmt); ok && resolvesToMethod(v, rs.X, "GetMsgs") && !v.nestedConditionally(rs, v.Decl.Body) {
+				loop = rs
+			}
+			return true
+		})
+		okBal := loop != nil && v.rejectsWhen(v.Decl.Body, func(f Fact) bool {
+			o := v.outcome(f)
+			return o != nil && o.Callee.Name() == "CheckSenderBalance" && !o.Success && within(o.Call, loop.Body)
+		}, nil)
+		// the balance handed to the check is the sender's current one
+		okArg := false
+		if loop != nil {
+			for _, c := range v.Calls(loop.Body, byName("CheckSenderBalance")) {
+				if len(c.Args) == 2 && balanceOfSender(v, c.Args[0]) {
+					okArg = true
+				}
+			}
+		}
+		r.check(okBal && okArg, "C19.R6", "balance|every-mode", v.pos(v.Decl), "for every message, a sender whose balance is below the transaction cost is rejected in every execution mode (block inclusion too)", "EthAccountVerificationDecorator does not reject every message with CheckSenderBalance(<sender's balance>, txData) != nil unconditionally (an earlier exit for some execution mode, say): in a block a transaction whose fee and value are each covered but not both is admitted, fails in the EVM with 'insufficient balance for transfer', and is charged")
+	}
 	if v := w.View("x/evm/keeper", "VerifyFee"); v == nil {
 		r.bad("C19.R6", "anchor|VerifyFee", "-", "anchor", "not found")
 	} else {
@@ -603,4 +631,23 @@ func c19Balances(r *Run) {
 	})
 	r.check(okMint && okBurn, "C19.R8", "SetBalance|mint-and-burn", sb.pos(sb.Decl), "a positive difference is minted to the account, a negative one is taken from it and burnt", "SetBalance does not mint on a positive and burn on a negative difference")
 	r.check(okDelta, "C19.R8", "SetBalance|difference", sb.pos(sb.Decl), "the difference is new balance minus current bank balance", "SetBalance does not compute new(big.Int).Sub(amount, balance)")
+}
+
+// balanceOfSender: the expression reads .Balance of an account obtained from GetAccount (or the empty account
+// substituted for a missing one) -- possibly wrapped in conversions.
+func balanceOfSender(v *FnView, e ast.Expr) bool {
+	found := false
+	ast.Inspect(e, func(n ast.Node) bool {
+		sel, ok := n.(*ast.SelectorExpr)
+		if !ok || sel.Sel.Name != "Balance" {
+			return true
+		}
+		for _, d := range v.resolveDefs(sel.X, 0) {
+			if c, isC := stripParens(d).(*ast.CallExpr); isC && (v.calleeName(c) == "GetAccount" || v.calleeName(c) == "NewEmptyAccount") {
+				found = true
+			}
+		}
+		return true
+	})
+	return found
 }
